@@ -812,16 +812,23 @@ impl<T> TooDee<T> {
 
         let v = &mut self.data;
         let num_cols = self.num_cols;
+        let num_rows = self.num_rows;
         let slice_len = v.len() - num_cols + 1;
         unsafe {
             // set the vec length to 0 to amplify any leaks
             v.set_len(0);
+            // The dimensions must describe the (now empty) `Vec` in case the `DrainCol` is leaked.
+            // `DrainCol` remembers the original dimensions and restores them when dropped.
+            self.num_cols = 0;
+            self.num_rows = 0;
             DrainCol {
                iter : Col {
                    skip : num_cols - 1,
-                   v : slice::from_raw_parts_mut(v.as_mut_ptr().add(index), slice_len),
+                   v : slice::from_raw_parts_mut(self.data.as_mut_ptr().add(index), slice_len),
                },
                col : index,
+               num_cols,
+               num_rows,
                toodee : NonNull::from(self),
             }
         }
@@ -1017,6 +1024,9 @@ pub struct DrainCol<'a, T> {
     /// Current remaining elements to remove
     iter: Col<'a, T>,
     col: usize,
+    /// The dimensions of the array before the column was removed
+    num_cols: usize,
+    num_rows: usize,
     toodee: NonNull<TooDee<T>>,
 }
 
@@ -1070,10 +1080,10 @@ impl<T> Drop for DrainCol<'_, T> {
 
                     let mut dest = vec.as_mut_ptr().add(col);
                     let mut src = dest.add(1);
-                    let orig_cols = toodee.num_cols;
+                    let orig_cols = self.0.num_cols;
                     let new_cols = orig_cols - 1;
                     
-                    let num_rows = toodee.num_rows;
+                    let num_rows = self.0.num_rows;
                     
                     for _ in 1..num_rows {
                         ptr::copy(src, dest, new_cols);
@@ -1083,9 +1093,9 @@ impl<T> Drop for DrainCol<'_, T> {
                     
                     ptr::copy(src, dest, orig_cols - col - 1);
                     
-                    toodee.num_cols -= 1;
-                    if toodee.num_cols == 0 {
-                        toodee.num_rows = 0;
+                    if new_cols > 0 {
+                        toodee.num_cols = new_cols;
+                        toodee.num_rows = num_rows;
                     }
 
                     // Set the new length based on the col/row counts
